@@ -433,7 +433,15 @@ uint32_t IPv6::calculate_headers_size() const {
 }
 
 void IPv6::write_header(const ext_header& header, OutputMemoryStream& stream) {
-    const uint8_t length = header.length_field() / 8;
+    // Hdr Ext Len: length of the whole (padded) header in 8 byte units, not 
+    // including the first 8 bytes. A spoofed length field is used as is.
+    uint8_t length = header.length_field() / 8;
+    if (header.length_field() == header.data_size()) {
+        const uint32_t padded_size = static_cast<uint32_t>(
+            header.data_size() + sizeof(uint8_t) * 2 + get_padding_size(header)
+        );
+        length = static_cast<uint8_t>(padded_size / 8 - 1);
+    }
     stream.write(header.option());
     stream.write(length);
     stream.write(header.data_ptr(), header.data_size());
